@@ -82,7 +82,11 @@ func extract(ctx context.Context, rs io.ReadSeeker, scanFunc func() osm.Scanner,
 				for obj := range objChan {
 					switch objType := obj.(type) {
 					case *osm.Node:
-						o.processNode(obj.(*osm.Node), keep, keepTags)
+						if o.processNode(obj.(*osm.Node), keep, keepTags) {
+							passMX.Lock()
+							needAnotherPass = true
+							passMX.Unlock()
+						}
 					case *osm.Way:
 						if o.processWay(obj.(*osm.Way), keep, keepTags) {
 							passMX.Lock()
@@ -272,7 +276,12 @@ func (o *Data) hasNeedRelation(id osm.RelationID) (has, need bool) {
 }
 
 // If the node has the tag we want, add it to the list.
-func (o *Data) processNode(n *osm.Node, keep KeepFunc, keepTags bool) {
+//
+// Every object that is stored requests another pass: keep functions may
+// consult what has been stored so far (KeepBounds does), and an object that was
+// judged before - or, in another worker, while - one of its referents was
+// stored has to be judged again. Extraction ends with a pass that stores nothing.
+func (o *Data) processNode(n *osm.Node, keep KeepFunc, keepTags bool) (anotherPass bool) {
 	verifPoint("judge.begin", 'n', int64(n.ID))
 	defer verifPoint("judge.end", 'n', int64(n.ID))
 	hasNode, needNode := o.hasNeedNode(n.ID)
@@ -285,7 +294,9 @@ func (o *Data) processNode(n *osm.Node, keep KeepFunc, keepTags bool) {
 		o.Nodes[n.ID] = copyNode(n, keepTags)
 		o.nodeMX.Unlock()
 		verifPoint("store.after", 'n', int64(n.ID))
+		anotherPass = true
 	}
+	return
 }
 
 func (o *Data) processNodeNoCopy(n *Node, keep KeepFunc, keepTags bool) {
@@ -315,6 +326,7 @@ func (o *Data) processWay(w *osm.Way, keep KeepFunc, keepTags bool) (anotherPass
 		o.Ways[w.ID] = copyWay(w, keepTags)
 		o.wayMX.Unlock()
 		verifPoint("store.after", 'w', int64(w.ID))
+		anotherPass = true
 		for _, n := range w.Nodes {
 			if _, needNode := o.hasNeedNode(n.ID); !needNode {
 				o.dependentNodeMX.Lock()
@@ -363,6 +375,7 @@ func (o *Data) processRelation(r *osm.Relation, keep KeepFunc, keepTags bool) (a
 		o.Relations[r.ID] = copyRelation(r, keepTags)
 		o.relationMX.Unlock()
 		verifPoint("store.after", 'r', int64(r.ID))
+		anotherPass = true
 		for _, m := range r.Members {
 			switch m.Type {
 			case osm.TypeNode:
